@@ -55,7 +55,8 @@ type convOutcome struct {
 	// state after each command prefix, for C10: device file text and model.
 	Prefixes     []string
 	PrefixModels []any
-	Final        any // model after the whole script (Cisco)
+	Final        any    // model after the whole script (Cisco)
+	Stderr       string // of a run that rejected the pair
 	// live runs: what the simulator observed
 	LiveCommands, LiveJoined, LiveNotices, LiveCompares int
 }
@@ -86,6 +87,7 @@ func runConv(env *run.Env, g *genCase, wantPrefixes bool) *convOutcome {
 	}
 	if r.Exit != 0 {
 		o.Conv = &clause{"rejected:" + errorShape(r.Stderr), "valid pair rejected: " + firstLines(r.Stderr, 3)}
+		o.Stderr = r.Stderr
 		return o
 	}
 	o.Accepted = true
